@@ -174,6 +174,9 @@ func (xr *xssRoots) stateRoot(fn *ssa.Function, extra func(name string, hooks *a
 	var pos0, prevEnd absint.Lin
 	cfg := env.config()
 	cfg.Peel = xr.peel
+	if xr.peel {
+		cfg.ResultCap = 3 * cfg.K
+	}
 	stateFld := xr.field("xss.state.state")
 	cfg.Hooks.OnReturn = func(e *absint.Engine, st *absint.State, fr *absint.Frame, ret *ssa.Return, val absint.AVal) {
 		if fr.Depth() != 0 {
@@ -240,6 +243,26 @@ func (xr *xssRoots) stateRoot(fn *ssa.Function, extra func(name string, hooks *a
 			trans = append(trans, tr)
 			mu.Unlock()
 		}
+	}
+	// the relations the return-site rules ask about are offered to every join
+	cfg.Hooks.Templates = func(e *absint.Engine, j *absint.State, jfr *absint.Frame) []absint.Lin {
+		ps, ok0 := e.CellOf(j, H, xr.field("xss.state.pos"))
+		psI, okP := ps.(absint.IntV)
+		if !ok0 || !okP {
+			return nil
+		}
+		length := absint.StrLenOf(in)
+		out := []absint.Lin{pos0.AddK(1).Sub(psI.L), absint.K(1).Sub(psI.L), psI.L.AddK(1).Sub(length), psI.L.Sub(length), prevEnd.Sub(psI.L), prevEnd.AddK(1).Sub(psI.L)}
+		ts, ok1 := e.CellOf(j, H, xr.field("xss.state.tokenStart"))
+		tl, ok2 := e.CellOf(j, H, xr.field("xss.state.tokenLen"))
+		tsS, okS := ts.(absint.StrV)
+		tlI, okL := tl.(absint.IntV)
+		if ok1 && ok2 && okS && okL && tsS.Const == nil && tsS.Root == in.Root {
+			off := tsS.Lo.Sub(in.Lo)
+			end := off.Add(tlI.L)
+			out = append(out, end.Sub(psI.L), end.AddK(1).Sub(psI.L), prevEnd.Sub(off), end.Sub(length), tlI.L.Neg())
+		}
+		return out
 	}
 	if extra != nil {
 		extra("state:"+fn.Name(), &cfg.Hooks)
@@ -353,6 +376,9 @@ func (xr *xssRoots) runAll(extra func(name string, hooks *absint.Hooks)) {
 				if xr.gap0[tr.to] && !tr.gap0 {
 					xr.gap0[tr.to] = false
 					changed = true
+					if os.Getenv("VERIF_DBGTRANS") != "" {
+						fmt.Fprintf(os.Stderr, "TRANS drops prevEnd≤pos of %s: %s\n", tr.to.Name(), tr.where)
+					}
 				}
 				if xr.gap1[tr.to] && !tr.gap1 {
 					xr.gap1[tr.to] = false
